@@ -21,7 +21,19 @@ func (g *fgen) runPattern(p *rprogram) string {
 		sub = regexp.QuoteMeta(t.subs[g.r.Intn(len(t.subs))].name)
 	}
 	any := topTests[g.r.Intn(len(topTests))]
-	switch g.r.Intn(14) {
+	switch g.r.Intn(16) {
+	case 14, 15:
+		// end-anchored: selects top-level tests by their last letters; subtests of OTHER tests that
+		// end the same way did not run and the anchor keeps their ids from matching
+		if sub != "" {
+			for _, r := range p.roots {
+				if r != t {
+					return "(" + sub + "|" + r.name + ")$" // r runs; t's subtest only shares the ending
+				}
+			}
+			return sub + "$"
+		}
+		return g.pick("x$", "B$", "1$")
 	case 0:
 		return "^" + t.name + "$"
 	case 1:
